@@ -128,6 +128,7 @@ type Exec struct {
 	substSeen   map[*Object]bool
 	globalInitVal map[*Object]Value
 	constCache  map[*ssa.Const]Value
+	reqHyp      int
 }
 
 type ioGhost struct {
@@ -1084,9 +1085,8 @@ func (x *Exec) copySlice(s SliceV) SliceV {
 	if isZero(s.Off) {
 		x.st.heap.m[o] = SymArrV{Arr: src.Arr, Len: s.Len, W: src.W}
 	} else {
-		arr := Fresh("cp!arr", Arr(src.W))
 		k := FreshBound("k", BV(64))
-		x.assume(Forall([]*Term{k}, Imp(BvUlt(k, s.Len), Eq(Select(arr, k), Select(src.Arr, BvAdd(s.Off, k))))))
+		arr := DefArr(src.W, k, Select(src.Arr, BvAdd(s.Off, k)))
 		x.st.heap.m[o] = SymArrV{Arr: arr, Len: s.Len, W: src.W}
 	}
 	return SliceV{Obj: o, Off: bv64(0), Len: s.Len, Cap: s.Len, Nil: False()}
@@ -1143,26 +1143,25 @@ func (x *Exec) concatBytes(a, b SliceV, str bool) SliceV {
 	}
 	o := x.newObject(types.Typ[types.Uint8], "cat")
 	n := BvAdd(a.Len, b.Len)
-	var arr *Term
-	if oka && na <= 64 && b.Obj != nil && isZeroOff(b) {
-		// small concrete prefix: shift is expressed pointwise
-		arr = Fresh("cat!arr", Arr(w))
-		for i := 0; i < na; i++ {
-			x.assume(Eq(Select(arr, bv64(int64(i))), x.byteAt(a, bv64(int64(i)))))
-		}
-		k := FreshBound("k", BV(64))
-		x.assume(Forall([]*Term{k}, Imp(BvUlt(k, b.Len), Eq(Select(arr, BvAdd(k, bv64(int64(na)))), x.byteAt(b, k)))))
+	k := FreshBound("k", BV(64))
+	var bodyB *Term
+	if b.Obj != nil {
+		bodyB = x.byteAt(b, BvSub(k, a.Len))
 	} else {
-		arr = Fresh("cat!arr", Arr(w))
-		k := FreshBound("k", BV(64))
-		if a.Obj != nil {
-			x.assume(Forall([]*Term{k}, Imp(BvUlt(k, a.Len), Eq(Select(arr, k), x.byteAt(a, k)))))
-		}
-		if b.Obj != nil {
-			k2 := FreshBound("k", BV(64))
-			x.assume(Forall([]*Term{k2}, Imp(BvUlt(k2, b.Len), Eq(Select(arr, BvAdd(a.Len, k2)), x.byteAt(b, k2)))))
-		}
+		bodyB = BVU(0, w)
 	}
+	var body *Term
+	if oka {
+		body = bodyB
+		for i := na - 1; i >= 0; i-- {
+			body = Ite(Eq(k, bv64(int64(i))), x.byteAt(a, bv64(int64(i))), body)
+		}
+	} else if a.Obj != nil {
+		body = Ite(BvUlt(k, a.Len), x.byteAt(a, k), bodyB)
+	} else {
+		body = bodyB
+	}
+	arr := DefArr(w, k, body)
 	x.st.heap.m[o] = SymArrV{Arr: arr, Len: n, W: w}
 	return SliceV{Obj: o, Off: bv64(0), Len: n, Cap: n, Nil: False(), Str: str}
 }
@@ -1465,6 +1464,18 @@ func analyze(fn *ssa.Function) *FuncInfo {
 			}
 		}
 		fi.order = append(fi.order, li)
+	}
+	// disambiguate equal names: name#1, name#2 ... in block order
+	cnt := map[string]int{}
+	for _, li := range fi.order {
+		cnt[li.key]++
+	}
+	seen := map[string]int{}
+	for _, li := range fi.order {
+		if cnt[li.key] > 1 {
+			seen[li.key]++
+			li.key = fmt.Sprintf("%s#%d", li.key, seen[li.key])
+		}
 	}
 	return fi
 }
@@ -1774,10 +1785,9 @@ func (x *Exec) copyOp(fr *Frame, args []Value, pos token.Pos) Value {
 		x.st.heap.m[dst.Obj] = SymArrV{Arr: arr, Len: dv.Len, W: dv.W}
 		return Scalar{n}
 	}
-	arr := Fresh("copy!arr", Arr(dv.W))
 	k := FreshBound("k", BV(64))
 	inRange := And(BvUle(dst.Off, k), BvUlt(k, BvAdd(dst.Off, n)))
-	x.assume(Forall([]*Term{k}, Eq(Select(arr, k), Ite(inRange, x.byteAt(src, BvSub(k, dst.Off)), Select(dv.Arr, k)))))
+	arr := DefArr(dv.W, k, Ite(inRange, x.byteAt(src, BvSub(k, dst.Off)), Select(dv.Arr, k)))
 	x.st.heap.m[dst.Obj] = SymArrV{Arr: arr, Len: dv.Len, W: dv.W}
 	return Scalar{n}
 }
